@@ -246,7 +246,7 @@ def check_opls(case, stats):
 
 # ---------------------------------------------------------------- several molecule types
 def multimol_cases(tier):
-    for order in ("multi-first", "multi-last", "multi-middle"):
+    for order in ("multi-first", "multi-last", "multi-middle", "multi-on-two-lines"):
         for counts in ((1, 1, 1), (2, 1, 2), (1, 3, 1)):
             yield dict(kind="multimol", order=order, counts=list(counts))
 
@@ -260,9 +260,11 @@ def check_multimol(case, stats):
     dtypes = ["TA TB TC TD 9 0 1.5 1", "TA TB TC TD 9 180 2.5 2", "TA TB TC TD 9 180 2.5 2", "TA TB TC TD 9 60 3.5 3", "UA UB UC UD 9 30 7.5 1"]
     mols = {"MULTI": (["TA", "TB", "TC", "TD"], "1 2 3 4 9"), "SINGLE": (["UA", "UB", "UC", "UD"], "4 3 2 1 9"),
             "PLAIN": (["UA", "TB", "UC", "TD"], "1 2 3 4 9 11 2.2 3")}
-    order = {"multi-first": ["MULTI", "SINGLE", "PLAIN"], "multi-last": ["SINGLE", "PLAIN", "MULTI"], "multi-middle": ["PLAIN", "MULTI", "SINGLE"]}[case["order"]]
+    # 'multi-on-two-lines': the molecule type with the multi-term dihedral is listed on two separate lines of [ molecules ]
+    order = {"multi-first": ["MULTI", "SINGLE", "PLAIN"], "multi-last": ["SINGLE", "PLAIN", "MULTI"], "multi-middle": ["PLAIN", "MULTI", "SINGLE"],
+             "multi-on-two-lines": ["MULTI", "SINGLE", "MULTI"]}[case["order"]]
     out = ["[ defaults ]", "1 2 no 1.0 1.0", "[ atomtypes ]"] + at + ["[ dihedraltypes ]"] + dtypes
-    for name in order:
+    for name in dict.fromkeys(order):
         types, dline = mols[name]
         out += ["[ moleculetype ]", f"{name} 1", "[ atoms ]"] + [f"{i} {t} 1 R a{i} {i} 0.0 12.0" for i, t in enumerate(types, 1)]
         out += ["[ bonds ]", "1 2 1 0.1 10", "2 3 1 0.1 10", "3 4 1 0.1 10", "[ dihedrals ]", dline]
